@@ -75,6 +75,8 @@ class grow:
         ("nonempty", "len(self.chunks) > 0"),
         ("last_end", "self.chunks[len(self.chunks) - 1].end == self.capacity"),
         ("tail", "tailfree(self) == old(tailfree(self)) + capacity"),
+        # accounting, pointwise: the free bytes after growing are the old free bytes plus exactly the added range
+        ("free_exact", "forall_int(lambda x: iff(infree(self, x), old(infree(self, x)) or (old(self.capacity) <= x and x < self.capacity)))"),
         ("params_kept", "self.default_alignment == old(self.default_alignment) and self.grow_step == old(self.grow_step)"),
         ("prefix_kept", "forall(0, old(len(self.chunks)), lambda i: implies(i < old(len(self.chunks)) - 1, same_obj(self.chunks[i], old(self.chunks[i])) and self.chunks[i].start == old(self.chunks[i].start) and self.chunks[i].end == old(self.chunks[i].end)))"),
         ("last_kept", "implies(old(len(self.chunks)) > 0, self.chunks[old(len(self.chunks)) - 1].start == old(self.chunks[len(self.chunks) - 1].start) and self.chunks[old(len(self.chunks)) - 1].end >= old(self.chunks[len(self.chunks) - 1].end))"),
@@ -104,6 +106,9 @@ class allocate:
         # ---- C12
         ("first_fit", "forall(0, n0, lambda k: implies(old(fits(self.chunks[k], size, a)) and forall(0, k, lambda j: not old(fits(self.chunks[j], size, a))), result == old(align_up(self.chunks[k].start, a)) and self.capacity == cap0))"),
         ("grow_only_if_needed", "implies(self.capacity != cap0, forall(0, n0, lambda k: not old(fits(self.chunks[k], size, a))))"),
+        # leak-freedom: every chunk that was free is still covered by one chunk, except the one that served the request, which loses
+        # only padding (fewer than `a` bytes before the result) and bytes of the region handed out; what lies behind the region stays free
+        ("no_leak", "forall(0, n0, lambda i: exists(0, len(self.chunks), lambda j: self.chunks[j].start <= old(self.chunks[i].start) and old(self.chunks[i].end) <= self.chunks[j].end) or (result < old(self.chunks[i].start) + a and (old(self.chunks[i].end) <= result + size or exists(0, len(self.chunks), lambda j: self.chunks[j].start <= result + size and old(self.chunks[i].end) <= self.chunks[j].end))))"),
     ]
     loops = {
         0: {
@@ -114,7 +119,7 @@ class allocate:
         }
     }
     properties = ["C04", "C12"]
-    clause_props = {"first_fit": ["C12"], "grow_only_if_needed": ["C12"], "recursion": ["C12"], "nofit_before": ["C12"],
+    clause_props = {"first_fit": ["C12"], "grow_only_if_needed": ["C12"], "no_leak": ["C12"], "recursion": ["C12"], "nofit_before": ["C12"],
                     "aligned": ["C04"], "in_bounds": ["C04"], "new_vs_live": ["C04"], "new_vs_free": ["C04"], "bytes_kept": ["C04"]}
 
 
@@ -134,11 +139,14 @@ class free:
         ("buffer_kept", "same_storage(self.buffer, old(self.buffer)) and bytes_kept(self, self.capacity, old(self.buffer))"),
         ("params_kept", "self.default_alignment == old(self.default_alignment) and self.grow_step == old(self.grow_step)"),
         ("reusable", "exists(0, len(self.chunks), lambda i: self.chunks[i].start <= offset and offset + size <= self.chunks[i].end)"),
+        # leak-freedom, chunk-wise: every chunk that was free is still covered by one chunk (with `reusable`: the free space afterwards
+        # covers the old free space plus the freed region; that it covers nothing live is LiveSep, so what it may add is padding only)
+        ("no_leak", "forall(0, old(len(self.chunks)), lambda i: exists(0, len(self.chunks), lambda j: self.chunks[j].start <= old(self.chunks[i].start) and old(self.chunks[i].end) <= self.chunks[j].end))"),
     ]
     raises = {}
     properties = ["C04", "C12"]
     # first entry = owner of the clause (DESIGN 2.8): the coalescing bookkeeping belongs to C12, C04 only shares it
-    clause_props = {"reusable": ["C12"], "IndexError": ["C12"], "N_last": ["C12", "C04"], "freed_somewhere": ["C12"]}
+    clause_props = {"reusable": ["C12"], "IndexError": ["C12"], "N_last": ["C12", "C04"], "freed_somewhere": ["C12"], "no_leak": ["C12"], "old_chunks_covered": ["C12"]}
     loops = {
         0: {"invariant": [
             ("not_found_yet", "forall(0, _i0, lambda j: offset > _it0[j].start)"),
@@ -156,6 +164,7 @@ class free:
             ("tail_after_pch", "forall(_i1, len(_it1), lambda i: pch.start <= _it1[i].start)"),
             ("tail_not_pch", "forall(_i1, len(_it1), lambda i: _it1[i] is not pch)"),
             ("tail_distinct", "forall(_i1, len(_it1), lambda i, j: implies(i < j, _it1[i] is not _it1[j]))"),
+            ("old_chunks_covered", "forall(0, old(len(self.chunks)), lambda i: exists(0, len(newchunks), lambda j: newchunks[j].start <= old(self.chunks[i].start) and old(self.chunks[i].end) <= newchunks[j].end) or exists(_i1, len(_it1), lambda k: _it1[k].start <= old(self.chunks[i].start) and old(self.chunks[i].end) <= _it1[k].end))"),
             ("freed_somewhere", "exists(0, len(newchunks), lambda j: newchunks[j].start <= offset and offset + size <= newchunks[j].end) or exists(_i1, len(_it1), lambda i: _it1[i].start <= offset and offset + size <= _it1[i].end)"),
         ]},
     }
